@@ -264,6 +264,19 @@ class Snippet:
         self.text = self.text[:k] + mark(text.rstrip() + '\n') + self.text[k:]
         self.splices += 1
 
+    def insert_inline(self, anchor_re, text, occurrence=0):
+        """Splice marked text (ghost arguments only: must start with `, Ghost(`) right after the occurrence-th match of anchor_re."""
+        self._freeze()
+        if not text.startswith(', Ghost('):
+            raise Undecided("%s: only ghost arguments may be spliced inline" % self.label)
+        mask = _mask_keep_marks(self.text)
+        ms = [m for m in re.finditer(anchor_re, mask)]
+        if occurrence >= len(ms):
+            raise LostAnchor("%s: inline anchor /%s/ #%d not found" % (self.label, anchor_re, occurrence))
+        k = ms[occurrence].end()
+        self.text = self.text[:k] + mark(text) + self.text[k:]
+        self.splices += 1
+
     def insert_at_end(self, text):
         """Splice proof text right before the closing brace of the fn body (after the last statement)."""
         self._freeze()
